@@ -312,6 +312,7 @@ class Rat:
         return self.canon()
 
 
+INTEGER_SYMBOLS: set = set()      # symbols declared integer valued (entries of integer-dtype input arrays)
 INFINITESIMAL = {"eps"}     # symbols standing for a perturbation below every tolerance ("close but different")
 
 
@@ -586,6 +587,10 @@ class SArr:
             vals = list(value.broadcast_to(shape).data)
         else:
             vals = [rat(value)] * len(pos)
+        if self.dtype == "int":
+            # NumPy casts on assignment: a real value stored into an integer array is truncated
+            vals = [x if (isinstance(x, Rat) and ((x.is_const() and x.const().denominator == 1) or (x.d == ONEP and x.n.is_monomial() and x.symbols() <= INTEGER_SYMBOLS
+                    and all(c.denominator == 1 for c in x.n.t.values())))) else fsym("trunc", x) for x in vals]
         for p, x in zip(pos, vals):
             self._store(p, x)
 
